@@ -350,6 +350,10 @@ func init() {
 						obs = append(obs, o)
 						continue
 					}
+					if o, ok := timeOrderViaThreeWayHelper(c, u, ps[1], sp.what, sp.rel); ok && sp.rel != "" {
+						obs = append(obs, o)
+						continue
+					}
 					obs = append(obs, mkOb(c, "TIME.order-mirror", u, sp.what, fd, Undecided, "no result built from the two time operands found", true))
 				}
 			}
@@ -548,6 +552,117 @@ func timeOrderViaSignPredicate(c *Ctx, u FuncUnit, argsP types.Object, what, wan
 			}
 			return mkOb(c, "TIME.order-mirror", u, what+" result#1", hr, Violated, fmt.Sprintf("%s is computed as operand0 %s operand1 (sign test handed to %s), not operand0 %s operand1: the three predicates no longer partition pairs of instants in agreement with time-from", what, rel, hu.Name(), want), true), true
 		}
+	}
+	return Obligation{}, false
+}
+
+// timeOrderViaThreeWayHelper: `cmp, lerr := compareTimes(env, args.Cells[0], args.Cells[1])` …
+// `return lisp.Bool(cmp OP 0)`, the helper's value returns being p.Compare(q) with p and q traced to the
+// cells it was handed: the predicate is operand(p) OP operand(q).
+func timeOrderViaThreeWayHelper(c *Ctx, u FuncUnit, argsP types.Object, what, want string) (Obligation, bool) {
+	info := u.Pkg.TypesInfo
+	for _, rs := range returnsOf(u.Decl.Body) {
+		if len(rs.Results) != 1 {
+			continue
+		}
+		outer, ok := ast.Unparen(rs.Results[0]).(*ast.CallExpr)
+		if !ok || len(outer.Args) != 1 {
+			continue
+		}
+		var cmpObj types.Object
+		rel, ok := signTestRelation(info, outer.Args[0], func(e ast.Expr) bool {
+			if o := identObj(info, e); o != nil {
+				cmpObj = o
+				return true
+			}
+			return false
+		})
+		if !ok || cmpObj == nil {
+			continue
+		}
+		dc, idx, ndef := definingCall(info, u.Decl.Body, cmpObj)
+		if dc == nil || ndef != 1 {
+			continue
+		}
+		h := originOf(Callee(info, dc))
+		hd := c.declOf[h]
+		if h == nil || hd == nil || hd.Body == nil || h.Pkg() != u.Obj.Pkg() {
+			continue
+		}
+		hu := FuncUnit{h, hd, c.pkgOf[hd]}
+		hinfo := hu.Pkg.TypesInfo
+		hps := paramObjs(hu)
+		// seed: helper parameters that receive args.Cells[k] (or args itself)
+		var hArgs types.Object
+		seed := map[types.Object]int{}
+		for i, a := range dc.Args {
+			if i >= len(hps) {
+				break
+			}
+			if identObj(info, a) == argsP {
+				hArgs = hps[i]
+			}
+			if ie, ok := ast.Unparen(a).(*ast.IndexExpr); ok {
+				if se, ok := ast.Unparen(ie.X).(*ast.SelectorExpr); ok && se.Sel.Name == "Cells" && identObj(info, se.X) == argsP {
+					if k, ok := intConst(info, ie.Index); ok {
+						seed[hps[i]] = k
+					}
+				}
+			} else if o := identObj(info, a); o != nil {
+				// a local defined as args.Cells[k]
+				if d := soleDef(info, u.Decl.Body, a); d != nil {
+					if ie, ok := ast.Unparen(d).(*ast.IndexExpr); ok {
+						if se, ok := ast.Unparen(ie.X).(*ast.SelectorExpr); ok && se.Sel.Name == "Cells" && identObj(info, se.X) == argsP {
+							if k, ok := intConst(info, ie.Index); ok {
+								seed[hps[i]] = k
+							}
+						}
+					}
+				}
+			}
+		}
+		tidx := timeOperandIndexSeeded(c, hu, hArgs, seed, 1)
+		good, n := true, 0
+		ri, ai := -1, -1
+		for _, hr := range returnsOf(hd.Body) {
+			if idx >= len(hr.Results) {
+				good = false
+				continue
+			}
+			r := ast.Unparen(hr.Results[idx])
+			if k, isC := intConst(hinfo, r); isC && k == 0 {
+				continue // the error returns
+			}
+			cmp, ok := r.(*ast.CallExpr)
+			if !ok || len(cmp.Args) != 1 {
+				good = false
+				continue
+			}
+			se, ok := ast.Unparen(cmp.Fun).(*ast.SelectorExpr)
+			f := Callee(hinfo, cmp)
+			if !ok || se.Sel.Name != "Compare" || f == nil || f.Pkg() == nil || f.Pkg().Path() != "time" {
+				good = false
+				continue
+			}
+			a, aok := tidx[identObj(hinfo, se.X)]
+			b, bok := tidx[identObj(hinfo, cmp.Args[0])]
+			if !aok || !bok || a == b || (n > 0 && (a != ri || b != ai)) {
+				good = false
+				continue
+			}
+			ri, ai = a, b
+			n++
+		}
+		if !good || n == 0 {
+			return mkOb(c, "TIME.order-mirror", u, what+" result#1", rs, Undecided, "the three-way helper "+hu.Name()+" does not return operand.Compare(operand) of the two argument cells on every value path", true), true
+		}
+		if ri == 1 {
+			rel = mirrorRel(rel)
+		}
+		if rel == want {
+			return mkOb(c, "TIME.order-mirror", u, what+" result#1", rs, Proved, fmt.Sprintf("%s = operand0 %s operand1, through %s = operand%d.Compare(operand%d) tested against 0", what, rel, hu.Name(), ri, ai), true), true
+		}
+		return mkOb(c, "TIME.order-mirror", u, what+" result#1", rs, Violated, fmt.Sprintf("%s is computed as operand0 %s operand1 (three-way result of %s tested against 0), not operand0 %s operand1: the three predicates no longer partition pairs of instants in agreement with time-from", what, rel, hu.Name(), want), true), true
 	}
 	return Obligation{}, false
 }
